@@ -197,6 +197,22 @@ theorem step_effect (cfg : Cfg M K R) (h : EqRefl cfg.ops) (s : CState M R) (op 
   | add id msg wr => exact of_effect _ _ (update_effect cfg h s id msg _).1
   | delete id wr => exact of_effect _ _ (delete_effect cfg h s id wr).1
 
+/-- every event a call announces is exactly the edit that call made -/
+theorem step_events_edit (cfg : Cfg M K R) (h : EqRefl cfg.ops) (s : CState M R) (op : COp M K) :
+    ∀ e ∈ eventsOf (Coll.step cfg s op).1, IsEdit (contents s) (contents (Coll.step cfg s op).2) e := by
+  have of_effect : ∀ (o : COut M) (s' : CState M R), WriteEffect cfg s o s' →
+      ∀ e ∈ o.events, IsEdit (contents s) (contents s') e := by
+    intro o s' he e hm
+    cases he with
+    | nothing h1 _ _ => rw [h1] at hm; simp at hm
+    | edit e' h1 _ h3 _ _ => rw [h1] at hm; simp only [List.mem_singleton] at hm; subst hm; exact h3
+  cases op with
+  | get id ro => intro e he; simp [Coll.step, eventsOf] at he
+  | list ro => intro e he; simp [Coll.step, eventsOf] at he
+  | update id msg wr => exact of_effect _ _ (update_effect cfg h s id msg wr).1
+  | add id msg wr => exact of_effect _ _ (update_effect cfg h s id msg _).1
+  | delete id wr => exact of_effect _ _ (delete_effect cfg h s id wr).1
+
 theorem Replay.append {v1 v2 v3 : String → Option M} {es1 es2 : List (CEvent M)}
     (h1 : Replay v1 es1 v2) (h2 : Replay v2 es2 v3) : Replay v1 (es1 ++ es2) v3 := by
   induction h1 with
@@ -211,6 +227,27 @@ theorem run_replay (cfg : Cfg M K R) (h : EqRefl cfg.ops) (ops : List (COp M K))
     intro s
     simp only [busEvents, Coll.run, List.flatMap_cons]
     exact Replay.append (step_effect cfg h s op) (ih _)
+
+theorem applyEv_of_isEdit {v v1 : String → Option M} {e : CEvent M} (h : IsEdit v v1 e) : applyEv v e = v1 := by
+  funext k
+  unfold applyEv
+  by_cases hk : k = e.id
+  · subst hk; simp [h.new_eq]
+  · simp [hk, h.frame k hk]
+
+/-- an event that announces an edit the view already contains changes nothing -/
+theorem applyEv_stale {v v1 : String → Option M} {e : CEvent M} (h : IsEdit v v1 e) : applyEv v1 e = v1 := by
+  funext k
+  unfold applyEv
+  by_cases hk : k = e.id
+  · subst hk; simp [h.new_eq]
+  · simp [hk]
+
+theorem replay_fold {v v' : String → Option M} {es : List (CEvent M)} (h : Replay v es v') :
+    es.foldl applyEv v = v' := by
+  induction h with
+  | nil v => rfl
+  | cons he _ ih => simp only [List.foldl_cons, applyEv_of_isEdit he, ih]
 
 /-! ## seed -/
 
